@@ -20,7 +20,7 @@ Theorem C13_map_loaded_sublist : forall kref vref loaded t,
 Proof. exact map_loaded_sublist. Qed.
 
 (* hence, on a well-formed map, the yield is in canonical order (lexicographic order of the digest
-   vectors, ties impossible: C13_map_tree_order) ... *)
+   vectors, non-decreasing; keys colliding on every level keep their insertion order: C13_map_tree_order, C02) ... *)
 Theorem C13_map_loaded_sorted :
   forall T dg levels, valid_T T -> (1 <= levels)%nat ->
   forall t, mtwf dg levels (set_threshold T) t ->
